@@ -640,3 +640,59 @@ def g2HEff : Nat := 0xbc69f08f2ee75b3584c6a0ea91b352888e2a8e9145ad7689986ff03150
 
 end Rfc
 end Ark.H2C
+
+/-! # hash_to_field from an XOF reader (appended; nothing above is changed) -/
+
+namespace Ark.H2C
+
+/-- `digest::XofReader`, as far as `hash_to_field` uses it: `fn read(&mut self, buffer: &mut [u8])`
+    (reader state and the buffer's old contents in, the buffer's new contents and the new state out;
+    a `&mut [u8]` cannot change its length: a reader model is expected to return `buffer.length` bytes) -/
+structure XofReader (σ : Type) where
+  read : σ → Bytes → Bytes × σ
+
+/-- the closure `base_prime_field_elem` of the free function `hash_to_field`, called once per item of `(0..m)`:
+    `h.read(alloca); F::BasePrimeField::from_be_bytes_mod_order(alloca)` — the same buffer is reused by every call.
+    (`from_base_prime_field_elems` pulls exactly `m` items out of `(0..m).map(..)`: `exactly_one` for a prime
+    field, `iter.by_ref().take(d)` per component of an extension, and a final `iter.next()` on the exhausted range.) -/
+def xofElems {σ : Type} (R : XofReader σ) (p : Nat) : Nat → σ → Bytes → List Nat × σ
+  | 0, h, _ => ([], h)
+  | k + 1, h, buf =>
+    let (buf', h') := R.read h buf
+    let c := os2ip buf' % p                                   -- from_be_bytes_mod_order
+    let (cs, h'') := xofElems R p k h' buf'
+    (c :: cs, h'')
+
+/-- `ark_ff::fields::field_hashers::hash_to_field::<F, H: XofReader, SEC_PARAM>(h: &mut H) -> F`:
+    the `m = F::extension_degree()` base-prime-field coordinates and the reader's final state.
+    Panics: the slice `&mut alloca[0..len_per_base_elem]` of the 2048-byte stack array.
+    (`from_base_prime_field_elems(..).unwrap()` is given exactly `m` items: never `None`.) -/
+def hashToFieldXof {σ : Type} (R : XofReader σ) (p modBits m secParam : Nat) (h : σ) : Outcome (List Nat × σ) :=
+  let len := getLenPerElem modBits secParam
+  if len > 2048 then .panic
+  else .ok (xofElems R p m h (List.replicate len 0))
+
+/-- the reader used by the harness (`StreamXof` in harness/src/bin/c13.rs): yields the given byte stream, then zeros;
+    state = (bytes not yet delivered, number of bytes requested so far) -/
+def streamReader : XofReader (Bytes × Nat) where
+  read := fun (d, cnt) buf =>
+    let n := buf.length
+    (d.take n ++ List.replicate (n - d.length) 0, (d.drop n, cnt + n))
+
+namespace Rfc
+
+/-- RFC 9380 §5.2 `hash_to_field(msg, count = 1)`, steps 3–8, on a GIVEN `uniform_bytes` string
+    (`expand_message` is a parameter of the construction: §5.3.2 `expand_message_xof` takes it from an XOF):
+    `e_j = OS2IP(substr(uniform_bytes, L·j, L)) mod p` for `j = 0 … m − 1`, `L = ceil((ceil(log2 p) + k) / 8)` -/
+def hashToFieldOfBytes (p m k : Nat) (uniformBytes : Bytes) : List Nat :=
+  let L := paramL p k
+  (List.range m).map fun j =>
+    let elmOffset := L * j
+    let tv := (uniformBytes.drop elmOffset).take L
+    os2ip tv % p
+
+/-- `len_in_bytes = count * m * L` with `count = 1`: the number of bytes of the XOF output that are consumed -/
+def lenInBytes1 (p m k : Nat) : Nat := 1 * m * paramL p k
+
+end Rfc
+end Ark.H2C
